@@ -1,7 +1,105 @@
-(** C08 — Configuration file is parsed to the documented values with safe fallbacks. *)
-From Snoopy Require Import Lib.CStr Config.Model Config.Grammar Config.Exec.
+(** C08 — Configuration file is parsed to the documented values with safe fallbacks.
+    Only statements, each closed by [exact] of a general theorem instantiated with the constants
+    regenerated from /repo (Gen.Gen_Config), plus non-vacuity examples. *)
+From Coq Require Import Strings.String.
+From Snoopy Require Import Lib.CStr Config.Model Config.Grammar Config.Exec Config.Values Config.Handler.
 From Gen Require Import Gen_Config.
 Local Open Scope N_scope.
+Notation C := Gen_Config.consts.
 
-Lemma gen_ok : config_consts_ok Gen_Config.consts = true.
+Lemma gen_ok : config_consts_ok C = true.
 Proof. vm_compute. reflexivity. Qed.
+
+(** booleans by first letter, for every value string *)
+Theorem C08_bool_first_letter : forall v, parse_bool C v = doc_bool v.
+Proof. exact (bool_first_letter C gen_ok). Qed.
+
+(** every documented facility/level name, in every letter case, with or without LOG_, maps to its <syslog.h> constant;
+    every other string to the built-in default.  [single_strip C = true]: exactly one layer removes the prefix; on a tree
+    where both configfile.c and util/syslog.c strip it, values starting with LOG_LOG_ are excluded (known finding) *)
+Theorem C08_syslog_names : forall v, single_strip C = true \/ no_double_prefix v = true ->
+  parse_facility C v = match doc_syslog (doc_fac C) v with Some n => n | None => d_facility C end
+  /\ parse_level C v = match doc_syslog (doc_lvl C) v with Some n => n | None => d_level C end.
+Proof. intros v D. split; [exact (syslog_facility_names C gen_ok v D)|exact (syslog_level_names C gen_ok v D)]. Qed.
+
+(** output = name[:argument], split at the first ':'; unknown name => default output and default argument *)
+Theorem C08_output_split : forall v,
+  parse_output C v = match doc_output C v with Some p => p | None => (d_output C, d_output_arg C) end.
+Proof. exact (output_split C gen_ok). Qed.
+
+(** lengths: for decimal numerals of ANY length with each suffix, n >= 1 -> clamp HARDMIN HARDMAX (n * factor) *)
+Theorem C08_len_clamp : forall ds suf, forallb is_digit ds = true -> suffix_ok suf -> 1 <= digits_val ds ->
+  bytelen C (ds_min C) (ds_max C) (ds_def C) (ds ++ suf) = clamp (doc_ds_min C) (doc_ds_max C) (digits_val ds * doc_factor suf)
+  /\ bytelen C (log_min C) (log_max C) (log_def C) (ds ++ suf) = clamp (doc_log_min C) (doc_log_max C) (digits_val ds * doc_factor suf).
+Proof.
+  intros ds suf D S V. destruct (ok_ds C gen_ok) as [_ [A [_ [A1 [A2 _]]]]]. destruct (ok_log C gen_ok) as [_ [B [_ [B1 [B2 _]]]]].
+  rewrite <- A1, <- A2, <- B1, <- B2. split; apply (len_clamp C gen_ok); assumption.
+Qed.
+
+(** never decreasing as the number grows *)
+Theorem C08_len_monotone : forall d1 d2 suf, forallb is_digit d1 = true -> forallb is_digit d2 = true -> suffix_ok suf ->
+  1 <= digits_val d1 -> digits_val d1 <= digits_val d2 ->
+  bytelen C (ds_min C) (ds_max C) (ds_def C) (d1 ++ suf) <= bytelen C (ds_min C) (ds_max C) (ds_def C) (d2 ++ suf)
+  /\ bytelen C (log_min C) (log_max C) (log_def C) (d1 ++ suf) <= bytelen C (log_min C) (log_max C) (log_def C) (d2 ++ suf).
+Proof.
+  intros d1 d2 suf D1 D2 S V1 V2. destruct (ok_ds C gen_ok) as [_ [A _]]. destruct (ok_log C gen_ok) as [_ [B _]].
+  split; apply (len_monotone C gen_ok); assumption.
+Qed.
+
+(** pinned fallback (DESIGN.md section 10): all-zero numerals and text without a leading digit keep the built-in default *)
+Theorem C08_len_zero_default : forall v, digits_val (fst (span_digits v)) = 0 ->
+  bytelen C (ds_min C) (ds_max C) (ds_def C) v = doc_ds_def C /\ bytelen C (log_min C) (log_max C) (log_def C) v = doc_log_def C.
+Proof.
+  intros v Z. destruct (ok_ds C gen_ok) as [_ [A [_ [_ [_ A3]]]]]. destruct (ok_log C gen_ok) as [_ [B [_ [_ [_ B3]]]]].
+  rewrite <- A3, <- B3. split; apply (len_zero_default C gen_ok); assumption.
+Qed.
+
+(** the value shown for an option after ANY sequence of handler calls is decided by its last occurrence:
+    its documented reading if parsable; otherwise the value in force (boolean) or the built-in default (others) *)
+Theorem C08_last_wins : forall o evs g, registered C o -> syslog_clean C evs ->
+  render_option C o (fold_left (handler C) evs g) = resolve C o (render_option C o g) (rev (occurrences o evs)).
+Proof. exact (last_wins C gen_ok). Qed.
+
+(** ... and the executable specification evaluated on the implementation accepts the model's own result *)
+Theorem C08_model_meets_spec : forall o evs, registered C o -> syslog_clean C evs ->
+  spec_option_ok C evs o (render_option C o (fold_left (handler C) evs (defaults C))) = true.
+Proof. exact (model_meets_spec C gen_ok). Qed.
+
+(** other sections and unknown keys leave the record unchanged *)
+Theorem C08_ignored_handler : forall g sec name v,
+  sec <> SNOOPY \/ (forall o, registered C o -> name <> doc_name o) -> handler C g (sec, name, v) = g.
+Proof. exact (handler_ignored C gen_ok). Qed.
+
+Print Assumptions C08_bool_first_letter.
+Print Assumptions C08_syslog_names.
+Print Assumptions C08_output_split.
+Print Assumptions C08_len_clamp.
+Print Assumptions C08_len_monotone.
+Print Assumptions C08_len_zero_default.
+Print Assumptions C08_last_wins.
+Print Assumptions C08_model_meets_spec.
+Print Assumptions C08_ignored_handler.
+
+(** non-vacuity *)
+Example C08_bool_nonvacuous : parse_bool C (bytes "Yes please") = Some true /\ parse_bool C (bytes "0") = Some false /\ parse_bool C (bytes "maybe") = None.
+Proof. vm_compute. repeat split; reflexivity. Qed.
+Example C08_syslog_nonvacuous :
+  no_double_prefix (bytes "log_Local3") = true /\ parse_facility C (bytes "log_Local3") = 152 /\ parse_facility C (bytes "XYZ_DAEMON") = d_facility C
+  /\ parse_level C (bytes "debug") = 7 /\ parse_level C (bytes "A") = d_level C.
+Proof. vm_compute. repeat split; reflexivity. Qed.
+Example C08_output_nonvacuous :
+  parse_output C (bytes "file:/var/log/snoopy-%{datetime:%Y}") = (bytes "file", bytes "/var/log/snoopy-%{datetime:%Y}")
+  /\ parse_output C (bytes ":file:/x") = (d_output C, d_output_arg C) /\ parse_output C (bytes "stdout") = (bytes "stdout", []).
+Proof. vm_compute. repeat split; reflexivity. Qed.
+Example C08_len_nonvacuous :
+  bytelen C (log_min C) (log_max C) (log_def C) (bytes "2048m") = 1048575 /\ bytelen C (log_min C) (log_max C) (log_def C) (bytes "7k") = 7168
+  /\ bytelen C (log_min C) (log_max C) (log_def C) (bytes "4294967297") = 1048575 /\ bytelen C (ds_min C) (ds_max C) (ds_def C) (bytes "1") = 255
+  /\ bytelen C (ds_min C) (ds_max C) (ds_def C) (bytes "000") = 2047 /\ bytelen C (ds_min C) (ds_max C) (ds_def C) (bytes "asdf") = 2047.
+Proof. vm_compute. repeat split; reflexivity. Qed.
+Example C08_last_wins_nonvacuous :
+  let evs := [(SNOOPY, bytes "output", bytes "file:/a"); (bytes "other", bytes "output", bytes "stdout"); (SNOOPY, bytes "syslog_level", bytes "LOG_ERR");
+              (SNOOPY, bytes "output", bytes "stderr"); (SNOOPY, bytes "error_logging", bytes "yes"); (SNOOPY, bytes "error_logging", bytes "garbage")] in
+  registered C OOutput /\ syslog_clean C evs
+  /\ shown_of C (fold_left (handler C) evs (defaults C)) =
+     map (fun r => (row_name r, match row_parse r with OOutput => bytes "stderr" | OLevel => bytes "ERR" | OErrorLogging => bytes "yes" | o => default_show C o end)) (options C).
+Proof. split; [|split]; [vm_compute; tauto | right; intros e He; vm_compute in He; repeat (destruct He as [<-|He]; [vm_compute; reflexivity|]); contradiction | vm_compute; reflexivity]. Qed.
